@@ -116,7 +116,7 @@ type Node struct {
 	Layout   string     `json:"layout,omitempty"`  // time: z.Time.Format(layout)
 	CustomT  string     `json:"customT,omitempty"` // custom: "string" | "int"
 	CustomFn string     `json:"customFn,omitempty"`
-	PreFn    string     `json:"preFn,omitempty"`   // preprocess behaviour: ok | error | split
+	PreFn    string     `json:"preFn,omitempty"`   // preprocess behaviour: trim | maybe | split | error | any | ptr | vtrim | vmaybe | verror
 	Via      string     `json:"via,omitempty"`     // struct: how the schema object is assembled: "" (literal) | merge | extend | omit | pick
 	TypeRot  int        `json:"typeRot,omitempty"` // shared struct nodes: rotate the destination type's field order at this use
 	ShareID  int        `json:"share,omitempty"`   // nodes with the same non-zero ShareID are built as ONE schema object
